@@ -135,15 +135,17 @@ func init() {
 		if a.IsConst() {
 			return m.in.I64(int64(a.iv.BitLen()))
 		}
-		// The SDK only compares BitLen against fixed limits (256, 315, 63, 64 ...). Model it by an
-		// uninterpreted monotone-by-thresholds function: bitlen(a) with defining facts at the thresholds.
+		// The SDK only compares BitLen against its 256/315-bit overflow limits. Overflow panics of
+		// sdk.Int / sdk.Dec are outside the claim (amounts are bounded far below 2^255): BitLen of a
+		// symbolic value is an unknown in [0, 255].
 		bl := m.in.UF("bitlen", SInt, a)
-		for _, k := range []uint{63, 64, 255, 256, 257, 315, 316} {
-			p := m.in.Int(new(big.Int).Lsh(big.NewInt(1), k))
-			m.addPC(m.in.Eq(m.in.Lt(a, p), m.in.Le(bl, m.in.I64(int64(k)))))
-		}
-		m.addPC(m.in.Le(m.in.I64(0), bl))
+		m.addPC(m.in.And(m.in.Le(m.in.I64(0), bl), m.in.Le(bl, m.in.I64(255))))
 		return bl
+	})
+	reg(B+"Bit", func(m *Machine, fn *ssa.Function, args []Value) Value {
+		a := m.absT(m.bigGet(args[0]))
+		k := m.concretize(args[1].(*Term), 0, 512, "Bit index")
+		return m.in.Mod(m.in.Div(a, m.in.Int(new(big.Int).Lsh(big.NewInt(1), uint(k)))), m.in.I64(2))
 	})
 	reg(B+"Rsh", func(m *Machine, fn *ssa.Function, args []Value) Value {
 		a := m.bigGet(args[1])
